@@ -317,7 +317,12 @@ def _add_missing_back_ends_to_module(module):
 def _gather_expected_back_ends(module):
     """Captures the expected_back_ends attribute for `module`."""
     back_ends_attr = ir_util.get_attribute(module.attribute, attributes.BACK_ENDS)
-    back_ends_str = back_ends_attr.string_constant.text
+    if back_ends_attr.has_field("string_constant"):
+        back_ends_str = back_ends_attr.string_constant.text
+    else:
+        # Only a back-end-qualified attribute of this name (which is for that back
+        # end to check) can have a non-string value here.
+        back_ends_str = _DEFAULT_BACK_ENDS
     return {"expected_back_ends": {x.strip() for x in back_ends_str.split(",")} | {""}}
 
 
